@@ -70,49 +70,54 @@ Example ex_suggest_on_D :
                         false Minor (CSimple (Some 5%N)) [9%N; 5%N; 7%N; 3%N] = SNew 7%N.
 Proof. vm_compute. reflexivity. Qed.
 
-(* ---- relaxing direct constraints (npm): NpmRelaxer.Relax *)
-Theorem relax_none_untouched : forall (V : Type) parses matches is_pre dif c_ok verr vers,
-  relax_npm V parses matches is_pre dif LNone c_ok verr vers = None.
+(* ---- relaxing direct constraints (npm): NpmRelaxer.Relax
+   base = the version the requirement resolves to when that is not the highest match (npm prefers the
+   version tagged latest); relax_from = base, or the highest match. *)
+Theorem relax_none_untouched : forall (V : Type) parses matches is_pre dif c_ok verr base vers,
+  relax_npm V parses matches is_pre dif LNone c_ok verr base vers = None.
 Proof. exact relax_none_lemma. Qed.
 Print Assumptions relax_none_untouched.
 
-(* the new lower bound lies strictly above the version the old requirement resolves to, for any
-   list of versions that is strictly ascending in the ecosystem order *)
+(* the new lower bound lies strictly above the highest version the old requirement matches (hence above
+   whatever it resolves to), for any list of versions that is strictly ascending in the ecosystem order *)
 Theorem relax_strictly_up : forall (V : Type) parses matches is_pre dif (cmp : V -> V -> comparison)
-                                   l c_ok verr vers op best,
+                                   l c_ok verr base vers op best,
   ssorted cmp vers = true ->
-  relax_npm V parses matches is_pre dif l c_ok verr vers = Some (op, best) ->
+  relax_npm V parses matches is_pre dif l c_ok verr base vers = Some (op, best) ->
   exists lst, highest_match V parses matches vers = Some lst /\ cmp lst best = Lt.
 Proof. exact relax_strictly_up_lemma. Qed.
 Print Assumptions relax_strictly_up.
 
-(* the step from that version to the new lower bound is within the level *)
-Theorem relax_level_checked : forall (V : Type) parses matches is_pre dif l c_ok verr vers op best,
-  relax_npm V parses matches is_pre dif l c_ok verr vers = Some (op, best) ->
-  exists lst, highest_match V parses matches vers = Some lst /\
-              allows l (dif_or_other V dif lst best) = true.
+(* the step from the resolved version to the new lower bound is within the level *)
+Theorem relax_level_checked : forall (V : Type) parses matches is_pre dif l c_ok verr base vers op best,
+  relax_npm V parses matches is_pre dif l c_ok verr base vers = Some (op, best) ->
+  exists from, relax_from V parses matches base vers = Some from /\
+               allows l (dif_or_other V dif from best) = true.
 Proof. exact relax_level_checked_lemma. Qed.
 Print Assumptions relax_level_checked.
 
-(* for every valid level, everything the new range can admit is within the level of the old resolved
-   version - for a strictly ascending version list, when Difference reports the first differing
-   component and classifies every strictly ordered pair (never Same / Other) *)
+(* for every valid level, everything the new range can admit is within the level of the resolved
+   version - for a strictly ascending version list with the resolved version not above the highest
+   match, when Difference reports the first differing component and classifies every strictly ordered
+   pair (never Same / Other) *)
 Theorem relax_range_within_level : forall (V : Type) parses matches is_pre dif (cmp : V -> V -> comparison)
                                           (comp : V -> comps),
   (forall a b, first_component_diffb (comp a) (comp b) (dif_or_other V dif a b) = true) ->
   (forall a b, cmp a b = Lt -> classified (dif_or_other V dif a b) = true) ->
-  forall l c_ok verr vers op best,
+  (forall a b c, cmp a b <> Gt -> cmp b c = Lt -> cmp a c = Lt) ->
+  forall l c_ok verr base vers op best,
   ssorted cmp vers = true ->
-  relax_npm V parses matches is_pre dif l c_ok verr vers = Some (op, best) ->
+  (forall b lst, base = Some b -> highest_match V parses matches vers = Some lst -> cmp b lst <> Gt) ->
+  relax_npm V parses matches is_pre dif l c_ok verr base vers = Some (op, best) ->
   valid_level l = true ->
-  exists lst, highest_match V parses matches vers = Some lst /\
-    forall v, range_admits V dif cmp op best v = true -> allows l (dif_or_other V dif lst v) = true.
+  exists from, relax_from V parses matches base vers = Some from /\
+    forall v, range_admits V dif cmp op best v = true -> allows l (dif_or_other V dif from v) = true.
 Proof.
-  intros V parses matches is_pre dif cmp comp H1 H2. apply relax_range_lemma with (comp := comp); assumption.
+  intros V parses matches is_pre dif cmp comp H1 H2 H3. apply relax_range_lemma with (comp := comp); assumption.
 Qed.
 Print Assumptions relax_range_within_level.
 
-(* the former witness: 1 = "1.2.3-alpha" (pinned), 2 = "1.2.3", 3 = "1.3.0", level patch: now "~1.2.3" *)
+(* the former witnesses. 1 = "1.2.3-alpha" (pinned), 2 = "1.2.3", 3 = "1.3.0", level patch: "~1.2.3" *)
 Definition ex_rdif (a b : N) : option diff :=
   match a, b with
   | 1%N, 2%N => Some DiffPrerelease
@@ -121,25 +126,21 @@ Definition ex_rdif (a b : N) : option diff :=
   end.
 
 Example ex_relax_prerelease_step_tilde :
-  relax_npm N (fun _ => true) (N.eqb 1) (N.eqb 1) ex_rdif Patch true false [1%N; 2%N; 3%N] = Some (Tilde, 2%N).
+  relax_npm N (fun _ => true) (N.eqb 1) (N.eqb 1) ex_rdif Patch true false None [1%N; 2%N; 3%N] = Some (Tilde, 2%N).
 Proof. vm_compute. reflexivity. Qed.
 
-(* the level is checked from the HIGHEST matching version; a resolver that picks another matching
-   version (npm prefers the one tagged "latest") is moved further than the level allows:
-   1 = "1.1.3" (resolved), 2 = "2.1.1" (highest match), 3 = "2.2.2-alpha", level minor *)
+(* 1 = "1.1.3" (tagged latest: what ">=1.0.0" resolves to), 2 = "2.1.1" (highest match), 3 = "2.2.2-alpha",
+   level minor: measured from 1 the step to 3 is major and refused; measured from 2 it was accepted *)
 Definition ex_rdif3 (a b : N) : option diff :=
   match a, b with
   | 2%N, 3%N => Some DiffMinor
   | _, _ => if N.eqb a b then Some Same else Some DiffMajor
   end.
 
-Theorem relax_level_from_resolved_refuted :
-  exists vers op best resolved,
-    relax_npm N (fun _ => true) (fun v => N.leb v 2) (N.eqb 3) ex_rdif3 Minor true false vers = Some (op, best) /\
-    In resolved vers /\ N.leb resolved 2 = true /\
-    allows Minor (dif_or_other N ex_rdif3 resolved best) = false.
-Proof. exists [1%N; 2%N; 3%N], Caret, 3%N, 1%N. vm_compute. auto. Qed.
-Print Assumptions relax_level_from_resolved_refuted.
+Example ex_relax_from_resolved :
+  relax_npm N (fun _ => true) (fun v => N.leb v 2) (N.eqb 3) ex_rdif3 Minor true false (Some 1%N) [1%N; 2%N; 3%N] = None /\
+  relax_npm N (fun _ => true) (fun v => N.leb v 2) (N.eqb 3) ex_rdif3 Minor true false None [1%N; 2%N; 3%N] = Some (Caret, 3%N).
+Proof. vm_compute. auto. Qed.
 
 (* non-vacuity: the chain 1.2.3 -> ~1.2.5 under level minor (versions 3,4,5 patch steps, 6 minor, 7 major) *)
 Definition ex_rdif2 (a b : N) : option diff :=
@@ -148,7 +149,7 @@ Definition ex_rdif2 (a b : N) : option diff :=
   else if N.leb 6 a || N.leb 6 b then Some DiffMinor else Some DiffPatch.
 
 Example ex_relax_on_D :
-  relax_npm N (fun _ => true) (N.eqb 3) (fun _ => false) ex_rdif2 Minor true false [3%N; 4%N; 5%N; 6%N; 7%N]
+  relax_npm N (fun _ => true) (N.eqb 3) (fun _ => false) ex_rdif2 Minor true false None [3%N; 4%N; 5%N; 6%N; 7%N]
   = Some (Tilde, 5%N).
 Proof. vm_compute. reflexivity. Qed.
 
